@@ -19,7 +19,7 @@ struct ft_m { unsigned short _fnum; int _ftype; unsigned short _field_traits; };
 struct pres_m { struct ft_m arr[3]; unsigned n; };                                     /* Presence (and the FieldTraits wrapper around it) */
 struct posmap_m { unsigned n; };
 struct be_m { unsigned short _fnum; void *_rlm; int _create; const char *_name; };
-struct bf_m { unsigned short tag; int from_token; };                                   /* BaseField created by the decoder */
+struct bf_m { unsigned short tag; int from_token; _Bool fixed_width; };                                   /* BaseField created by the decoder */
 struct ctx_m { int dummy; };
 struct oss_m { int dummy; };
 '''
@@ -35,7 +35,7 @@ char g_raw[4096]; unsigned g_ntok; unsigned g_off[NTOK + 1]; unsigned short g_ta
 /* ---- ghost: what the decoder did ---- */
 int g_nadded; unsigned short g_added_tag[NTOK + 1]; unsigned g_added_pos[NTOK + 1]; int g_added_from[NTOK + 1];
 unsigned g_unk_calls; unsigned g_unk_lo, g_unk_hi; _Bool g_unk_contiguous, g_unk_exact;              /* _unknown.append calls: lowest start / highest end offset appended */
-int g_group_calls, g_fixed_calls;
+int g_group_calls, g_fixed_calls; _Bool g_fixed_ok, g_cur_fixed;      /* g_cur_fixed: the token last handed out came from the fixed-width tokeniser (its bytes are taken by count, whatever they are) */
 struct bf_m g_bf[NTOK + 1]; int g_nbf;
 /* ---- ASSUMED models ---- */
 unsigned long sv_size(const struct sv_m *s) { return s->size; }
@@ -45,7 +45,7 @@ unsigned tok_extract(const char *from, unsigned sz, char *tag, char *val)
 {
   /* the tokeniser: at a token boundary with the whole token inside the window it returns the token's length, otherwise 0 */
   for (unsigned i = 0; i < NTOK; ++i)
-    if (i < g_ntok && from == g_raw + g_off[i]) { if (g_off[i + 1] - g_off[i] <= sz) { g_cur = (int)i; tag[0] = (char)i; val[0] = (char)i; return g_off[i + 1] - g_off[i]; } return 0; }
+    if (i < g_ntok && from == g_raw + g_off[i]) { if (g_off[i + 1] - g_off[i] <= sz) { g_cur = (int)i; g_cur_fixed = 0; tag[0] = (char)i; val[0] = (char)i; return g_off[i + 1] - g_off[i]; } return 0; }
   return 0;
 }
 unsigned short atoi_tag(const char *tag, char term) { return g_cur >= 0 ? g_tag[g_cur] : 0; }
@@ -60,7 +60,7 @@ void ebit_set(unsigned short *bits, unsigned bit, _Bool on) { if (on) *bits |= (
 struct be_m g_be;
 const struct be_m *ctx_find_be(const struct ctx_m *c, unsigned short fnum) { g_be._fnum = fnum; return &g_be; }      /* every tag of a presence set has a field definition */
 struct bf_m *be_create(const int *inst, const char *val, const void *rlm, int ival)
-{ __CPROVER_assume(g_nbf <= NTOK); g_bf[g_nbf].tag = g_be._fnum; g_bf[g_nbf].from_token = (int)val[0]; return &g_bf[g_nbf++]; }   /* the field is built from this value text */
+{ __CPROVER_assume(g_nbf <= NTOK); g_bf[g_nbf].tag = g_be._fnum; g_bf[g_nbf].from_token = (int)val[0]; g_bf[g_nbf].fixed_width = g_cur_fixed; return &g_bf[g_nbf++]; }   /* the field is built from this value text */
 struct FIX8_MessageBase;
 void mb_add_field_decoder(struct FIX8_MessageBase *self, unsigned short fnum, unsigned pos, struct bf_m *what)
 { __CPROVER_assume(g_nadded <= NTOK); g_added_tag[g_nadded] = fnum; g_added_pos[g_nadded] = pos; g_added_from[g_nadded] = what->tag == fnum ? what->from_token : -2; g_nadded++; }
@@ -71,6 +71,9 @@ unsigned tok_extract_fixed(const char *from, unsigned sz, unsigned val_sz, char 
   /* K-tok: extract_element_fixed_width copies val_sz bytes and a terminator into val, and the tag digits into tag, without a limit of its own */
   __CPROVER_assert((unsigned long)val_sz + 1 <= __CPROVER_OBJECT_SIZE(val) - __CPROVER_POINTER_OFFSET(val), "C03.decode.data_value_buffer_holds_the_declared_length_and_its_terminator");
   g_fixed_calls++;
+  if (g_fixed_ok)      /* the data token is there: it is handed out like any other token (its tag digits, its bytes) */
+    for (unsigned i = 0; i < NTOK; ++i)
+      if (i < g_ntok && from == g_raw + g_off[i] && g_off[i + 1] - g_off[i] <= sz + 1) { g_cur = (int)i; g_cur_fixed = 1; tag[0] = (char)i; val[0] = (char)i; return g_off[i + 1] - g_off[i]; }
   return 0;
 }
 void unk_append(struct sv_m *u, const char *p, unsigned long n);
@@ -132,11 +135,25 @@ void h_part_length(void)
 {
   struct sv_m from; mk_text(&from); struct FIX8_MessageBase m; mk_part(&m);
   __CPROVER_assume(m._fp.n >= 1 && g_ntok >= 1 && g_tag[0] == m._fp.arr[0]._fnum && m._fp.arr[0]._fnum != 9);
-  m._fp.arr[0]._ftype = K_ft_Length; g_fixed_calls = 0; g_val_sz = nondet_uint();
+  m._fp.arr[0]._ftype = K_ft_Length; g_fixed_calls = 0; g_val_sz = nondet_uint(); g_fixed_ok = 0;
   unsigned r = mb_decode(&m, &from, g_off[0], 0, nondet_bool());
   __CPROVER_assert(__exc || g_fixed_calls <= 1, "C03.decode.at_most_one_data_field_follows_a_length_field");
   __CPROVER_assert(g_val_sz > 2047u || g_fixed_calls == 1, "C06.decode.every_declared_length_up_to_the_field_limit_reaches_the_data_tokeniser");
   __CPROVER_assert(g_val_sz <= 2047u || (g_fixed_calls == 0 && __exc), "C06.decode.a_declared_length_beyond_the_field_limit_is_refused");
+  VACUITY_PROBE();
+}
+/* a Length field and its data field (the next tag, of type data) are consumed as a pair */
+void h_part_length_pair(void)
+{
+  struct sv_m from; mk_text(&from); struct FIX8_MessageBase m; mk_part(&m);
+  __CPROVER_assume(m._fp.n >= 2 && g_ntok >= 2 && g_tag[0] == m._fp.arr[0]._fnum && m._fp.arr[0]._fnum != 9 && m._fp.arr[0]._fnum < 65535);
+  __CPROVER_assume(m._fp.arr[1]._fnum == m._fp.arr[0]._fnum + 1 && g_tag[1] == m._fp.arr[1]._fnum);
+  m._fp.arr[0]._ftype = K_ft_Length; m._fp.arr[1]._ftype = K_ft_data; g_fixed_calls = 0; g_val_sz = nondet_uint(); __CPROVER_assume(g_val_sz <= 2047u); g_fixed_ok = 1;
+  __CPROVER_assume(!(m._fp.arr[0]._field_traits & (1u << K_mandatory)) || 1);
+  unsigned r = mb_decode(&m, &from, g_off[0], 0, 0);
+  __CPROVER_assert(__exc || r >= g_off[2], "C06.decode.a_length_field_and_the_data_field_that_follows_it_are_consumed_together");
+  __CPROVER_assert(__exc || (g_nadded >= 2 && g_added_tag[0] == g_tag[0] && g_added_tag[1] == g_tag[1] && g_added_from[1] == 1), "C06.decode.the_data_field_is_built_from_the_fixed_width_value");
+  __CPROVER_assert(__exc || (g_nbf >= 2 && g_bf[1].fixed_width && !g_bf[0].fixed_width), "C06.decode.the_data_bytes_are_taken_by_count_not_up_to_the_next_separator");
   VACUITY_PROBE();
 }
 /* permissive mode, one part */
@@ -219,6 +236,7 @@ UNIT = dict(
         dict(name='part_strict', harness='h_part_strict', properties=['C04', 'C01'], solvers=['cadical', 'z3'], timeout=dict(quick=600, thorough=1800), floor=6, level='bounded', unwind=5, object_bits=10),
         dict(name='part_length_c03', harness='h_part_length_c03', properties=['C03'], solvers=['cadical', 'z3'], timeout=dict(quick=600, thorough=1800), floor=1, level='bounded', unwind=5, object_bits=10),
         dict(name='part_length_c06', harness='h_part_length_c06', properties=['C06'], solvers=['cadical', 'z3'], timeout=dict(quick=600, thorough=1800), floor=2, level='bounded', unwind=5, object_bits=10),
+        dict(name='part_length_pair', harness='h_part_length_pair', properties=['C06'], solvers=['cadical', 'z3'], timeout=dict(quick=600, thorough=1800), floor=2, level='bounded', unwind=5, object_bits=10),
         dict(name='part_strict_5_tokens', harness='h_part_strict', tier='thorough', cc_flags=['-DNTOK=5'], properties=['C04', 'C01'], solvers=['cadical', 'z3'], timeout=dict(quick=1800, thorough=3600), floor=6, level='bounded', unwind=8, object_bits=10),
         dict(name='part_permissive_5_tokens', harness='h_part_permissive', tier='thorough', cc_flags=['-DNTOK=5'], properties=['C05'], solvers=['cadical', 'z3'], timeout=dict(quick=1800, thorough=3600), floor=3, level='bounded', unwind=8, object_bits=10),
         dict(name='part_permissive', harness='h_part_permissive', properties=['C05'], solvers=['cadical', 'z3'], timeout=dict(quick=600, thorough=1800), floor=3, level='bounded', unwind=5, object_bits=10),
